@@ -540,6 +540,12 @@ theorem refr_step {s : St} (h : Refr s) (t : Tables s) (op : Op) : Refr (step s 
     | pick call pn m ctx dl req => exact refr_opPick h call pn m ctx dl req
     | ctxdone call => exact refr_of_same h (sameR_opCtxDone s call)
     | done call err reply => exact refr_opDone h t call err reply
+    | pickHold call pn m ctx dl req =>
+      exact opPickHold_cases _ s call pn m ctx dl req h (fun _ => refr_of_same h ⟨rfl, rfl, fun _ => rfl⟩)
+        (refr_opPick h call pn m ctx dl req)
+    | resume call =>
+      exact opResume_cases _ s call h (fun _ => refr_of_same h ⟨rfl, rfl, fun _ => rfl⟩)
+        (fun _ _ _ _ => refr_newSubConn (refr_of_same h ⟨rfl, rfl, fun _ => rfl⟩))
   unfold step
   generalize stepCore s op = r at h1 ⊢
   obtain ⟨s1, ev⟩ := r
